@@ -1488,9 +1488,12 @@ func (P) Generate(g *core.Gen) {
 	if !g.Thorough() {
 		emitPar([]string{"0", "1", "1>0"}[r.Intn(3)], wlReorg(r, 1, 0, 2, false, -1), 8)
 		{
-			f := []int{770, 771, 772}[r.Intn(3)]
-			t := []int{1699, 1700, 1701}[r.Intn(3)]
-			emit("prune-fit", r.Intn(2), fmt.Sprintf("%d:%d", t, f), wlPruneEdge(r, 0, 13), 4, 0, 0)
+			// the sharp point (a record ending exactly at the roll-over limit, a total
+			// exactly at the prune target) always, one neighbour at random
+			emit("prune-fit", r.Intn(2), "1700:771", wlPruneEdge(r, 0, 13), 3, 0, 0)
+			f := []int{770, 772}[r.Intn(2)]
+			t := []int{1699, 1701}[r.Intn(2)]
+			emit("prune-fit", r.Intn(2), fmt.Sprintf("%d:%d", t, f), wlPruneEdge(r, 0, 13), 6, 0, 0)
 		}
 		emitSwitch("cache-switch", []string{"1>0", "1>0>1"}[r.Intn(2)], plain(5), 2)
 		emit("linear", r.Intn(2), "0", wlLinear(r, 3), 1, 1, 3)
